@@ -12,9 +12,9 @@ from gen import c01_cmp as CMP
 
 ID = "C01"
 PROPS = ["IsoVerif/Props/C01.lean", "IsoVerif/Props/C01Path.lean", "IsoVerif/Props/C01Far.lean",
-         "IsoVerif/Props/C01Compare.lean", "IsoVerif/Props/C01Converse.lean"]
+         "IsoVerif/Props/C01Compare.lean", "IsoVerif/Props/C01Converse.lean", "IsoVerif/Props/C01Polya.lean"]
 TARGETS = ["IsoVerif.Props.C01", "IsoVerif.Props.C01Path", "IsoVerif.Props.C01Far", "IsoVerif.Props.C01Compare",
-           "IsoVerif.Props.C01Converse"]
+           "IsoVerif.Props.C01Converse", "IsoVerif.Props.C01Polya"]
 GEN_DEPS = ["Prims", "Enums", "EventClasses", "Strategies", "ComparatorTables"]
 LEVEL = "proof"
 RULE = ("seeded random annotations (1-3 overlapping / nested / antisense genes, 1-6 isoforms each: exon skipping, alt 5'/3' "
@@ -496,6 +496,7 @@ def correspondence(ctx):
     ctx.diff_batch("C01", tcases, impl_table)
     ccases = classify_cases(ctx, 300 if quick else 3000)
     ctx.diff_batch("C01", ccases, lambda op, kw: impl_classify(kw))
+    correspondence_polya_sentinel(ctx)
     # 1b. JunctionComparator.compare_junctions on its own: test corpus first, small universes, random and malformed chains
     correspondence_compare(ctx)
     # 2. gene model, read profiles, assignment
@@ -558,6 +559,69 @@ def correspondence(ctx):
 
 def slim(kw):
     return vlib.canon(kw)
+
+
+def correspondence_polya_sentinel(ctx):
+    """PolyAVerifier.verify_read_ends for genes next to the chromosome start with ONE of the two polyA (polyT) positions
+    absent: the configuration in which detect_reference_exons_beyond_polya / before_polyt used the sentinel -1 as a
+    coordinate (fixed in /repo; Props/C01Polya).  The inputs of the Lean witnesses run first."""
+    rng = ctx.rng
+    n = 600 if ctx.tier == "quick" else 12000
+    cases = [("default", [{"id": "t0000", "gene": "g0", "strand": "+", "exons": [(10, 30), (200, 210)]}], [(10, 30)], [80, -1, -1, -1]),
+             ("default", [{"id": "t0000", "gene": "g0", "strand": "+", "exons": [(5, 30), (180, 190)]}], [(5, 30)], [135, -1, -1, -1]),
+             ("default", [{"id": "t0000", "gene": "g0", "strand": "-", "exons": [(1, 3), (5, 100)]}], [(60, 100)], [-1, 50, -1, -1])]
+    for _ in range(n):
+        strand = rng.choice("+-")
+        exons, pos = [], rng.randint(1, 40)
+        for _ in range(rng.randint(2, 4)):
+            ln = rng.choice([rng.randint(2, 12), rng.randint(10, 45), rng.randint(30, 150)])
+            exons.append((pos, pos + ln - 1))
+            pos += ln + rng.randint(15, 160)
+        m = rng.randint(1, len(exons) - 1)
+        if strand == "+":
+            blocks = exons[:m]
+            blocks[-1] = (blocks[-1][0], blocks[-1][1] + rng.choice([0, 0, -1, 3, 20, 60]))
+            end = blocks[-1][1]
+            a = end + rng.choice([1, 1, 5, 30, 50, 51, 105])
+            polya = rng.choice([[a, -1, -1, -1], [-1, -1, max(1, end - rng.randint(0, 40)), -1],
+                                [a, -1, max(1, end - rng.randint(0, 40)), -1]])
+        else:
+            blocks = exons[m:]
+            blocks[0] = (max(1, blocks[0][0] - rng.choice([0, 0, -1, 3, 20])), blocks[0][1])
+            start = blocks[0][0]
+            t = max(1, start - rng.choice([1, 1, 5, 30, 50, 51]))
+            polya = rng.choice([[-1, t, -1, -1], [-1, -1, -1, start + rng.randint(0, 40)],
+                                [-1, t, -1, start + rng.randint(0, 40)]])
+        if not A.valid_blocks(blocks) or not A.valid_blocks(exons):
+            continue
+        cases.append((rng.choice(A.PRESETS), [{"id": "t0000", "gene": "g0", "strand": strand, "exons": exons}], blocks, polya))
+    recs = []
+    for strategy, isoforms, blocks, polya in cases:
+        params = make_params(strategy)
+        try:
+            built = Built(isoforms, params)
+            prof = built.profiles(blocks, polya)
+        except ERRS:
+            continue
+        try:
+            io = [event_json(e) for e in built.assigner.polya_verifier.verify_read_ends(prof, "t0000", [])]
+        except ERRS as ex:
+            io = {"error": "error", "exc": type(ex).__name__}
+        kw = {"isoforms": isoforms_json(isoforms), "params": params_json(params), "blocks": [list(b) for b in blocks],
+              "polya": polya, "iso": 0, "events": []}
+        recs.append((kw, io))
+    outs = ctx.driver.run([vlib.req("C01.verify_read_ends", **kw) for kw, _ in recs])
+    for (kw, io), mo in zip(recs, outs):
+        ctx.evaluations += 1
+        ctx.traces_validated += 1
+        ctx.count("op:verify_read_ends_near_origin")
+        if isinstance(mo, dict) and "driver_error" in mo or not vlib.same(mo, vlib.canon(io)):
+            if len(ctx.disagreements) < 60:
+                ctx.disagree("verify_read_ends", kw, mo, io)
+        elif not vlib.is_err(mo):
+            for e in mo:
+                ctx.count("polya_event:" + e[0])
+            ctx.mark_nontrivial(["verify_read_ends", kw["isoforms"], kw["blocks"], kw["polya"]])
 
 
 def correspondence_compare_helpers(ctx, tiny, presets):
